@@ -184,10 +184,23 @@ CHECKS.update({
         ref="4/C16"),
 })
 
+CHECKS.update({
+    "C18": dict(
+        technique="static analysis: value-origin rule for the paths the resolver builds (def-chains over MIR), edge reachability in the normaliser's CFG for the "
+                  "three segment classes, origin of the normaliser's return value, prefix-constant table of the specifier classifier, sentinel-collision "
+                  "contradiction rule; positive-control fixture",
+        text="Decides five structural necessary conditions of the resolver's contract, not its values: every ModulePath that resolve() builds holds the "
+             "normaliser's result except on the bare-specifier edge; the normaliser drops '' and '.' segments and lets '..' remove the previously kept "
+             "segment (none of the three reaches the push of a kept segment); every value the normaliser returns is built from the kept segments (no early "
+             "return of raw text); specifiers are classified by exactly the prefixes './', '../' and '/'; and no Option is collapsed into a sentinel that "
+             "its payload can take (the pinned tree used \"\" both for 'no importer directory' and for the root directory: './m.ts' from '/main.ts' gave "
+             "'m.ts' - reproduced and repaired, fix: commit). Idempotence, equality of spellings and trailing slashes for all inputs are not decided.",
+        ref="4/C18"),
+})
+
 NOT_APPLICABLE = {
     "C04": "value equivalence with the TypeScript emit; no structural mechanism exists (DESIGN.md 4/C04)",
     "C09": "behaviour of a fixed-point loader over all graphs x schedules; structural parts are decided under C02/C19",
-    "C18": "input/output contract of a pure string function over all strings; no structural rule separates correct from incorrect",
     "C20": "source positions are run-time values of the source map; no structural rule decides 'inside the offending token'",
 }
 PENDING = "static rules for this property are designed (DESIGN.md section 4) but not yet built; not claimed until they are"
